@@ -74,6 +74,7 @@ def make_spec(seed):
     for i in range(n):
         w = [r.choice([0, 0, 1]) for _ in range(n)]; tot = sum(w) + r.choice([1, 2])
         M.append([round(x / tot * 0.999, 4) if x else 0.0 for x in w])
+    if n == 1 and r.random() < 0.6: M = [[0.0]]
     return dict(seed=seed, n=n, nodes=nodes, arrivals=arr, services=srv, routing=M, lattice=lattice, T=r.choice([30.0, 60.0]))
 
 
@@ -132,7 +133,9 @@ def worker(job, extra):
         # order of simultaneous arrivals: engine list order is id order of acceptance; use (time, engine arrival sequence)
         visits.sort(key=lambda v: (v[0], v[2][1], v[1]))
         exp = ps_oracle([(v[0], v[2], v[3]) for v in visits], cap, R)
-        ties = len(set(v[0] for v in visits)) != len(visits)
+        # simultaneous events (two arrivals, or an arrival and a completion, at one instant) leave the order undetermined
+        ev_times = sorted([float(v[0]) for v in visits] + [float(x[1]) for x in exp.values()])
+        tie_times = [a_ for a_, b_ in zip(ev_times, ev_times[1:]) if abs(a_ - b_) < 1e-9]
         for v in visits:
             r = v[4]
             if r is None or v[2] not in exp: continue
@@ -140,7 +143,7 @@ def worker(job, extra):
             err = max(abs(s - r.service_start_date), abs(e - r.exit_date))
             res['compared'] += 1
             if err > 1e-6:
-                if ties and spec['lattice']:
+                if tie_times and tie_times[0] <= float(max(e, r.exit_date)) + 1e-9:
                     res['tie_ambiguous'] = res.get('tie_ambiguous', 0) + 1
                     break    # order of simultaneous arrivals / completions is not determined by the records
                 res['viol'].append(('ps_trajectory_mismatch', (nid, v[2], (s, e), (r.service_start_date, r.exit_date), cap, R)))
@@ -157,7 +160,8 @@ def worker(job, extra):
             if depth > cap:
                 res['viol'].append(('more_than_capacity_in_service', (nid, t, depth, cap))); break
         # (2) unlimited PS, single node networks: same emptying instants as FIFO M/G/1 replay on the real ciw.Node
-        if spec['n'] == 1 and cap == INF and R == 1 and visits and not spec['lattice']:
+        # (feedback makes arrivals coincide with departures up to rounding: only exogenous arrivals are compared)
+        if spec['n'] == 1 and cap == INF and R == 1 and visits and not spec['lattice'] and spec['routing'][0][0] == 0.0:
             done = [v for v in visits if v[4] is not None and v[3] is not None]
             known = [v for v in visits if v[3] is not None]
             if len(known) >= 3 and len(known) == len(visits):
@@ -174,7 +178,8 @@ def worker(job, extra):
                 Q2, st2, cr2 = guarded(fifo, 40)
                 if st2 == 'ok':
                     def empties(recs, arrivals):
-                        ev = sorted([(a, 1) for a in arrivals] + [(r.exit_date, -1) for r in recs], key=lambda x: (x[0], x[1]))
+                        # an arrival at the very instant of a departure (feedback) is not an emptying instant: arrivals first
+                        ev = sorted([(a, 1) for a in arrivals] + [(r.exit_date, -1) for r in recs], key=lambda x: (x[0], -x[1]))
                         out = []; d = 0
                         for t, dl in ev:
                             d += dl
